@@ -379,7 +379,8 @@ func c19FbRun(c c19FbCase) (*vlib.Failure, c19OpStats) {
 			return vlib.Failf("VERIF-HARNESS unknown op kind %q", op.Kind), st
 		}
 		m.apply(op)
-		pc := vlib.CatchFault(func() {
+		when := fmt.Sprintf("op %d %s on a console of %dx%d cells (%s)", i, op, m.cols, m.rows, geo)
+		pc := c19Exec(c, when, func() {
 			switch op.Kind {
 			case "write":
 				cons.Write(op.Ch, op.Fg, op.Bg, op.X, op.Y)
@@ -393,7 +394,6 @@ func c19FbRun(c c19FbCase) (*vlib.Failure, c19OpStats) {
 				cons.Scroll(dir, op.Lines)
 			}
 		})
-		when := fmt.Sprintf("op %d %s on a console of %dx%d cells (%s)", i, op, m.cols, m.rows, geo)
 		if pc.Panicked {
 			return vlib.Failf("%s: %s", when, c19PanicText(pc)), st
 		}
